@@ -76,6 +76,12 @@ CHECKS = {
    note="A package missing from the file system makes the CLI try the default registry, which fails fast in the sealed sandbox (no configuration, no network); `--registry` is C20's subject and not exercised here. The binary is the CLI's default feature set (no `wat` feature: packages are .wasm files).",
    technique="property-based testing: differential between the built CLI and the in-process library pipeline over generated inputs x flag combinations (proptest, subprocess per case)",
    design="C19"),
+ "C20": dict(
+   category="exploration",
+   text="One in-process Warg server on 127.0.0.1 per run (the repository's own test recipe) holds 5 packages with 0-3 releases each, published out of version order, with contents between a few bytes and 300 kB. Key sets of 1-6 distinct keys from a pool of 17 (every published name/version, unversioned references, a missing version, a package without releases, a package that does not exist) are resolved in generated request orders through RegistryPackageResolver::resolve on tokio runtimes with 1, 2 or 8 workers, with a cold or warm client cache; all request orders of selected key sets are enumerated. Every requested key must be present with exactly the bytes published under (name, version) or under the highest release; with unresolvable keys the error variant and the package/version it names must belong to one of them.",
+   note="Download completion orders are perturbed (content sizes, worker counts, cache state), not enumerated. The check lives in its own harness crate (c20reg) because it links the Warg server.",
+   technique="property-based testing: model-based oracle (what was published) over generated key sets, request orders and runtime configurations (proptest + exhaustive permutations of selected sets)",
+   design="C20"),
  "C12": dict(
    category="exploration",
    text="Grammar-derived documents (own AST model, random layout) must parse to the derivation's tree; all single-token deletions/duplications/swaps and a fixed third of an 18-token substitution pool per position, raw insertions (forbidden code points, quotes, comment openers, separators, malformed versions) and ~140 hand-written near-miss forms are decided by a reference tokenizer+recogniser written from LANGUAGE.md; wac must agree on membership, on the tree when both accept, and locate its error inside the source when both reject.",
